@@ -9,7 +9,7 @@
                  (Tree_ex.check_text Tree_ex.node_kinds text = false; the reason is the first
                   failing stage of Tree_ex.classify: no line at all / last line not
                   newline-terminated / a Go formatting artefact in some line / the lines are
-                  not the rendering of one rooted tree / a first word that is not a ClickHouse
+                  not the rendering of one rooted tree (a leaf may carry "(children 0)") / a first word that is not a ClickHouse
                   node kind)
              bad:panic        the field is the word PANIC (Explain panicked: no text at all)
              skip:<WORD>      the field is another non-hex word (ERR, PARSEPANIC: not a
